@@ -10,9 +10,11 @@ MUTANTS = [
      "            elif not self.__on_headers_complete:\n                if data:\n                    self._buf.append(data)",
      "            elif not self.__on_headers_complete:\n                if data:\n                    self._buf = [data]"),
     # ... and while the first line is incomplete
-    ('c13-firstline-buf-cleared', 'C13', P,
-     "                if idx < 0:\n                    self._buf.append(data)\n                    return len(data)",
-     "                if idx < 0:\n                    self._buf = [data]\n                    return len(data)"),
+    # c13-firstline-buf-cleared: equivalent since fix 58f54e0 (the buffered start of the line is joined into `data` and _buf emptied
+    # before the search, so `_buf = [data]` and `_buf.append(data)` are the same thing); replaced by the revert of that fix:
+    ('c13-revert-firstline-join', 'C13', P,
+     "                if self._buf:  # the CR and LF ending the first line may arrive in different reads\n                    data = b''.join(self._buf) + data\n                    self._buf = []\n",
+     ""),
     # ... and while a chunk is incomplete
     ('c13-body-buf-cleared', 'C13', P,
      "                if data:\n                    self._buf.append(data)\n                    data = b''\n\n                ret = self._parse_body()",
@@ -45,12 +47,18 @@ MUTANTS = [
      "        if False:\n            parser = self._buffers[sock]"),
     # server: request dispatched before a Content-Length body is complete
     ('c13-server-dispatch-before-cl-body', 'C13', H,
-     "        if (clen or req.headers.get('Transfer-Encoding') == 'chunked') and not parser.is_message_complete():",
-     "        if (req.headers.get('Transfer-Encoding') == 'chunked') and not parser.is_message_complete():"),
+     "        if (clen or parser.is_chunked()) and not parser.is_message_complete():",
+     "        if parser.is_chunked() and not parser.is_message_complete():"),
     # server: request dispatched before a chunked body is complete
     ('c13-server-dispatch-before-chunked-body', 'C13', H,
-     "        if (clen or req.headers.get('Transfer-Encoding') == 'chunked') and not parser.is_message_complete():",
+     "        if (clen or parser.is_chunked()) and not parser.is_message_complete():",
      "        if clen and not parser.is_message_complete():"),
+    ('c13-revert-chunked-name-case', 'C13', H,
+     "        if (clen or parser.is_chunked()) and not parser.is_message_complete():",
+     "        if (clen or req.headers.get('Transfer-Encoding') == 'chunked') and not parser.is_message_complete():"),
+    ('c13-revert-zero-chunk-tail', 'C13', P,
+     "            if rest_chunk[:2] != b'\\r\\n' and rest_chunk.find(b'\\r\\n\\r\\n') < 0:\n                return None, None  # the final CRLF / trailer section has not arrived yet\n",
+     ""),
     # server: parser kept after the request was dispatched (next keep-alive request hits a finished parser)
     ('c13-server-parser-kept-after-dispatch', 'C13', H,
      "        req.body = BytesIO(parser.recv_body())\n        del self._buffers[sock]",
